@@ -108,18 +108,21 @@ func c20Leaf(r *Run) {
 		k := "buildLogLeaf:"
 		raw := "ct.RawLogEntryFromLeaf(*)#0"
 		succ := sgOkReturns(fn)
+		// the index and the entry parameter, whichever order they are declared in
+		ip, ep := c20LeafParams(r)
+		pIdx, pEnt := fmt.Sprintf("p%d", ip), fmt.Sprintf("p%d", ep)
 		for _, ret := range succ {
 			r.ExpectFields(fn, k+"leaf", ret.Results[0], map[string]string{
-				"LeafValue":        "p2.LeafInput",
-				"ExtraData":        "p2.ExtraData",
-				"LeafIndex":        "p1",
-				"LeafIdentityHash": "dyn(p0.idFunc)(p1, " + raw + ") || dyn(p0.idFunc)(p1, " + raw + ")[:]",
+				"LeafValue":        pEnt + ".LeafInput",
+				"ExtraData":        pEnt + ".ExtraData",
+				"LeafIndex":        pIdx,
+				"LeafIdentityHash": "dyn(p0." + c20IDField(r) + ")(" + pIdx + ", " + raw + ") || dyn(p0." + c20IDField(r) + ")(" + pIdx + ", " + raw + ")[:]",
 			})
 		}
 		r.Check(k+"one-success-return", len(succ) == 1, r.FnPos(fn), fmt.Sprintf("%d success returns", len(succ)))
 		if c := r.OneCall(fn, k+"raw-entry", "ct.RawLogEntryFromLeaf"); c != nil {
-			r.ExpectArg(c, k+"raw-entry.index", 0, "p1")
-			r.ExpectArg(c, k+"raw-entry.entry", 1, "p2")
+			r.ExpectArg(c, k+"raw-entry.index", 0, pIdx)
+			r.ExpectArg(c, k+"raw-entry.entry", 1, pEnt)
 			r.ErrorsGate(fn, k+"raw-entry-error", "ct.RawLogEntryFromLeaf", 1)
 			// verbatim copy: once the raw entry exists nothing can fail the leaf,
 			// whatever the certificate parser says
@@ -179,7 +182,7 @@ func c20Leaf(r *Run) {
 		if err != nil {
 			r.Fail(k+"identity-function", r.FnPos(fn), "undecided: "+err.Error())
 		}
-		sts := r.StoresTo(fn, "&(new:trillian/migrillian/core.PreorderedLogClient#*.idFunc)")
+		sts := r.StoresTo(fn, "&(new:trillian/migrillian/core.PreorderedLogClient#*."+c20IDField(r)+")")
 		seen := map[string]bool{}
 		for _, c := range cases {
 			r.Valuations++
@@ -223,8 +226,13 @@ func c20Batch(r *Run) {
 		return
 	}
 	// the entry handed to buildLogLeaf: &b.Entries[i] or the address of a copy of it
-	entry := r.D.D(CallArgs(bl)[2])
-	if a := baseAlloc(CallArgs(bl)[2]); a != nil {
+	ip, ep := c20LeafParams(r)
+	if ip >= len(CallArgs(bl)) || ep >= len(CallArgs(bl)) {
+		r.Fail(k+"entry", r.Where(bl), "undecided: buildLogLeaf is not called with an index and an entry")
+		return
+	}
+	entry := r.D.D(CallArgs(bl)[ep])
+	if a := baseAlloc(CallArgs(bl)[ep]); a != nil {
 		for _, ref := range *a.Referrers() {
 			if st, ok := ref.(*ssa.Store); ok && st.Addr == ssa.Value(a) {
 				entry = r.D.D(st.Val)
@@ -239,9 +247,9 @@ func c20Batch(r *Run) {
 	}
 	r.Check(k+"entry", i != "", r.Where(bl), "buildLogLeaf gets entry "+entry+" of the batch")
 	if i != "" {
-		a, b, ok := sgAddOperands(r.D.D(CallArgs(bl)[1]))
+		a, b, ok := sgAddOperands(r.D.D(CallArgs(bl)[ip]))
 		r.Check(k+"index=start+i", ok && ((a == i && b == "p2.Start") || (b == i && a == "p2.Start")), r.Where(bl),
-			fmt.Sprintf("entry %s is submitted under index %s (statement: Start + position in the batch)", entry, r.D.D(CallArgs(bl)[1])))
+			fmt.Sprintf("entry %s is submitted under index %s (statement: Start + position in the batch)", entry, r.D.D(CallArgs(bl)[ip])))
 		slot := false
 		for _, st := range r.StoresTo(fn, "&(make:[]*trillian.LogLeaf(len(p2.Entries))["+i+"])") {
 			if glob(c20plc+"buildLogLeaf(*)#0", r.D.D(st.Val)) {
@@ -512,7 +520,9 @@ func c20Transfer(fn *ssa.Function) (tf *ssa.Function, call ssa.CallInstruction) 
 			return
 		}
 		cal := ci.Common().StaticCallee()
-		if cal == nil || cal.Parent() != nil || len(cal.Blocks) == 0 || fnPkg(cal) != fnPkg(fn) {
+		// (a function literal of fetchTail called on the spot counts: the shape a helper with deferred calls has
+		// once the normaliser has expanded it)
+		if cal == nil || (cal.Parent() != nil && cal.Parent() != fn) || len(cal.Blocks) == 0 || fnPkg(cal) != fnPkg(fn) {
 			return
 		}
 		if len(CallsTo(cal, "(*scanner.Fetcher).Run")) > 0 {
@@ -567,6 +577,9 @@ func c20FetchTail(r *Run) {
 			if r.D.D(a) == "p1" {
 				alts = append(alts, fmt.Sprintf("p%d", j))
 			}
+		}
+		if tf.Parent() == fn && len(alts) > 0 {
+			alts = append(alts, "^p1") // a literal called on the spot: its parameter reads as the argument
 		}
 		if len(alts) == 0 {
 			r.Fail(k+"transfer.context", r.Where(tcall), "undecided: "+FuncName(tf)+" is not handed fetchTail's context")
@@ -965,56 +978,183 @@ func c20ConsistencyRoles(r *Run, vc ssa.CallInstruction, sh c20Shape) c20Roles {
 }
 
 // c20CopiedFrom sees through "x := y" for struct locals: when the only thing ever written to
-// the local x is one whole copy of another local y, made in a block that dominates `use`, and
-// neither y nor x is written from that block on, then x at `use` is y as it stands when the
-// copy's block is entered.  Returns (y, block of the copy); otherwise (x, use) unchanged.
-func c20CopiedFrom(fn *ssa.Function, x *ssa.Alloc, use *ssa.BasicBlock) (*ssa.Alloc, *ssa.BasicBlock) {
+// the local x is one whole copy of another local y, made at an instruction that dominates `use`,
+// no pointer to y escapes and y is not written after the copy (later in the copy's block, or in
+// any block that can execute after it), then x at `use` is y as it stands at the copy: every
+// write to y executes before the copy.  Returns y; otherwise x unchanged.
+func c20CopiedFrom(fn *ssa.Function, x *ssa.Alloc, use ssa.Instruction) *ssa.Alloc {
 	for depth := 0; depth < 3; depth++ {
 		ws := WholeStores(x)
 		if len(ws) != 1 || len(c20PartStores(x)) != 0 {
-			return x, use
+			return x
 		}
-		ld, ok := ws[0].Val.(*ssa.UnOp)
+		cp := ws[0]
+		ld, ok := cp.Val.(*ssa.UnOp)
 		if !ok || ld.Op != token.MUL {
-			return x, use
+			return x
 		}
 		y, ok := ld.X.(*ssa.Alloc)
 		if !ok || y == x || !types.Identical(y.Type(), x.Type()) {
-			return x, use
+			return x
 		}
-		cb := ws[0].Block()
-		if cb != ld.Block() || !cb.Dominates(use) {
-			return x, use
+		cb := cp.Block()
+		if cb != ld.Block() {
+			return x
+		}
+		if !(cb != use.Block() && cb.Dominates(use.Block()) || cb == use.Block() && instrPos(cp) < instrPos(use)) {
+			return x
 		}
 		// y is only ever accessed directly (no pointer to it escapes)
 		for _, ref := range *y.Referrers() {
 			switch ref.(type) {
 			case *ssa.Store, *ssa.UnOp, *ssa.FieldAddr, *ssa.DebugRef:
 			default:
-				return x, use
+				return x
 			}
 		}
-		// nothing is written to y from the copy's block on
-		after := map[*ssa.BasicBlock]bool{}
-		var visit func(b *ssa.BasicBlock)
-		visit = func(b *ssa.BasicBlock) {
-			if after[b] {
+		// nothing is written to y between the load and the copy, nor after the copy
+		after := blocksAfter(cb)
+		for _, st := range append(WholeStores(y), c20PartStores(y)...) {
+			if after[st.Block()] || st.Block() == cb && instrPos(st) > instrPos(ld) {
+				return x
+			}
+		}
+		x, use = y, cp
+	}
+	return x
+}
+
+// instrPos: position of an instruction in its block.
+func instrPos(in ssa.Instruction) int {
+	for i, x := range in.Block().Instrs {
+		if x == in {
+			return i
+		}
+	}
+	return -1
+}
+
+// blocksAfter: the blocks that can execute after block b has been left (b itself when it lies on a cycle).
+func blocksAfter(b *ssa.BasicBlock) map[*ssa.BasicBlock]bool {
+	after := map[*ssa.BasicBlock]bool{}
+	var visit func(b *ssa.BasicBlock)
+	visit = func(b *ssa.BasicBlock) {
+		if after[b] {
+			return
+		}
+		after[b] = true
+		for _, sb := range b.Succs {
+			visit(sb)
+		}
+	}
+	for _, sb := range b.Succs {
+		visit(sb)
+	}
+	return after
+}
+
+// c20StoredUnder: what a store writes on a walk — the values its operand can have along the edges
+// the walk takes (φ read edge by edge, conversions seen through), leaving out the case in which
+// the store writes back what the location already holds (`x.f = max(x.f, b)` when x.f is the
+// larger: the value is a load of the same location and nothing is written to it between that load
+// and the store).  ok=false when a value cannot be resolved.
+func c20StoredUnder(r *Run, st *ssa.Store, reach *Reach) (vals []string) {
+	seen := map[ssa.Value]bool{}
+	var visit func(v ssa.Value)
+	visit = func(v ssa.Value) {
+		if seen[v] {
+			return
+		}
+		seen[v] = true
+		switch x := v.(type) {
+		case *ssa.Phi:
+			if !isInduction(x) && !isRangePre(x) {
+				n := 0
+				for i, e := range x.Edges {
+					if reach != nil && !reach.Edges[[2]int{x.Block().Preds[i].Index, x.Block().Index}] {
+						continue
+					}
+					n++
+					visit(e)
+				}
+				if n == 0 {
+					vals = append(vals, "⊥")
+				}
 				return
 			}
-			after[b] = true
-			for _, sb := range b.Succs {
-				visit(sb)
+		case *ssa.Convert:
+			visit(x.X)
+			return
+		case *ssa.ChangeType:
+			visit(x.X)
+			return
+		case *ssa.UnOp:
+			if x.Op == token.MUL && r.D.D(x.X) == r.D.D(st.Addr) && c20Unwritten(r, x, st) {
+				return // writes back the current content
 			}
 		}
-		visit(cb)
-		for _, st := range append(WholeStores(y), c20PartStores(y)...) {
-			if after[st.Block()] {
-				return x, use
-			}
-		}
-		x, use = y, cb
+		vals = append(vals, r.D.DUnder(v, reach))
 	}
-	return x, use
+	visit(st.Val)
+	return vals
+}
+
+// c20Unwritten: between the load ld of a local's component and the store st to the same component
+// nothing else writes that component or the local as a whole (on any path from ld to st).
+func c20Unwritten(r *Run, ld *ssa.UnOp, st *ssa.Store) bool {
+	a := baseAlloc(st.Addr)
+	if a == nil || baseAlloc(ld.X) != a {
+		return false
+	}
+	for _, ref := range *a.Referrers() { // no pointer to the local is handed out
+		switch ref.(type) {
+		case *ssa.Store, *ssa.UnOp, *ssa.FieldAddr, *ssa.DebugRef, *ssa.Call:
+		default:
+			return false
+		}
+	}
+	lb, sb := ld.Block(), st.Block()
+	fwd := blocksAfter(lb)
+	fwd[lb] = true
+	bwd := map[*ssa.BasicBlock]bool{}
+	var back func(b *ssa.BasicBlock)
+	back = func(b *ssa.BasicBlock) {
+		if bwd[b] {
+			return
+		}
+		bwd[b] = true
+		for _, p := range b.Preds {
+			back(p)
+		}
+	}
+	back(sb)
+	onCycle := func(b *ssa.BasicBlock) bool { return blocksAfter(b)[b] }
+	addr := r.D.D(st.Addr)
+	for _, w := range append(WholeStores(a), c20PartStores(a)...) {
+		if w == st || !(fwd[w.Block()] && bwd[w.Block()]) {
+			continue
+		}
+		if w.Addr != ssa.Value(a) && r.D.D(w.Addr) != addr {
+			continue // another component
+		}
+		if w.Block() == lb && instrPos(w) < instrPos(ld) && !onCycle(lb) {
+			continue
+		}
+		if w.Block() == sb && instrPos(w) > instrPos(st) && !onCycle(sb) {
+			continue
+		}
+		return false
+	}
+	// a call that was given the local's address may keep it and write through it: none may execute before the store
+	for _, ref := range *a.Referrers() {
+		if c, ok := ref.(*ssa.Call); ok && bwd[c.Block()] {
+			if c.Block() == sb && instrPos(c) > instrPos(st) && !onCycle(sb) {
+				continue
+			}
+			return false
+		}
+	}
+	return true
 }
 
 // c20PartStores: stores into components (fields, fields of fields, elements) of the allocation.
@@ -1061,33 +1201,34 @@ func c20Resume(r *Run) {
 	}
 	// the options may be prepared in one local and handed over as a copy of it: the rules below
 	// then read the local that was copied, up to the point of the copy
-	stopAt := nf.Block()
-	fo, stopAt = c20CopiedFrom(fn, fo, stopAt)
+	fo = c20CopiedFrom(fn, fo, nf)
 	name := r.D.allocName(fo)
 	r.ExpectStores(fn, k+"options.base", name, "p0.opts.FetcherOptions", 1)
 	size := c20plc + "getRoot(*)" + c20RootShape(r, false).size
 	starts := r.StoresTo(fn, "&("+name+".StartIndex)")
 	ends := r.StoresTo(fn, "&("+name+".EndIndex)")
 	conts := r.StoresTo(fn, "&("+name+".Continuous)")
-	res, err := r.D.Table(fn, nil, map[*ssa.BasicBlock]bool{stopAt: true}, []RuleAtom{
+	res, err := r.D.Table(fn, nil, nil, []RuleAtom{
 		{Name: "cont", Pat: name + ".Continuous"},
 		{Name: "neg", OrdA: name + ".StartIndex", OrdB: "0"},
 		{Name: "beg", OrdA: name + ".StartIndex", OrdB: "p2"},
 	}, func(val map[string]string, reach *Reach, s Sigma) {
 		var st, en, co []string
+		// what each store that may execute writes on this walk (a store that only writes back the
+		// field's current content, as `f = max(f, b)` does when f is the larger, writes nothing)
 		for _, x := range starts {
 			if reach.Has(x) {
-				st = append(st, r.D.D(x.Val))
+				st = append(st, c20StoredUnder(r, x, reach)...)
 			}
 		}
 		for _, x := range ends {
 			if reach.Has(x) {
-				en = append(en, r.D.D(x.Val))
+				en = append(en, c20StoredUnder(r, x, reach)...)
 			}
 		}
 		for _, x := range conts {
 			if reach.Has(x) {
-				co = append(co, r.D.D(x.Val))
+				co = append(co, c20StoredUnder(r, x, reach)...)
 			}
 		}
 		has := func(l []string, g string) bool {
